@@ -121,8 +121,27 @@ def import_chartparse_plain() -> None:
         raise RuntimeError(f"chartparse imported from {got}, expected {PKG_DIR}")
 
 
-def fresh_interpreter_env(hashseed: int | str) -> dict[str, str]:
+FLAVOURS: dict[str, dict[str, str]] = {
+    # process environments a deployment may run under; none of them may change what a parse of
+    # given bytes returns (the library passes its codec explicitly)
+    "default": {},
+    "c-locale-no-utf8-mode": {"LC_ALL": "C", "LANG": "C", "PYTHONUTF8": "0", "PYTHONCOERCECLOCALE": "0"},
+    "posix-locale": {"LC_ALL": "POSIX", "PYTHONCOERCECLOCALE": "0"},
+    "utf8-mode": {"PYTHONUTF8": "1", "LC_ALL": "C"},
+    "dev-mode": {"PYTHONDEVMODE": "1"},
+    "latin1-io": {"PYTHONIOENCODING": "latin-1", "LC_ALL": "C", "PYTHONUTF8": "0", "PYTHONCOERCECLOCALE": "0"},
+    "other-tz": {"TZ": "Asia/Kolkata"},
+}
+
+
+def fresh_interpreter_env(hashseed: int | str, flavour: str = "default") -> dict[str, str]:
     """Environment for a genuinely fresh interpreter that imports chartparse from the tree."""
+    env = _fresh_interpreter_env(hashseed)
+    env.update(FLAVOURS.get(flavour, {}))
+    return env
+
+
+def _fresh_interpreter_env(hashseed: int | str) -> dict[str, str]:
     env = {
         "PATH": os.environ.get("PATH", "/usr/bin:/bin"),
         "PYTHONPATH": REPO + os.pathsep + VERIF_ROOT,
